@@ -428,7 +428,7 @@ func (sm *SealManager) performRootRotation(ctx context.Context, ns *namespace.Na
 	if isShamirSeal {
 		if len(newSealKey) > 0 {
 			err := b.Put(ctx, &logical.StorageEntry{
-				Key:   barrier.ShamirKekPath,
+				Key:   NamespaceStoragePathPrefix(ns) + barrier.ShamirKekPath,
 				Value: newSealKey,
 			})
 			if err != nil {
